@@ -214,8 +214,11 @@ def _portable_fp(fp, out):
 def _as_spec(s):
     """spec of a pooled schema, only if rebuilding it reproduces the schema exactly"""
     try:
+        from .. import codec
         sp = canon.spec_of(s)
-        again = specs.build(sp)
+        # the spec travels to the other process as tagged JSON: it must survive that trip unchanged
+        # (an instance of a bytes / str subclass as a fixed value would arrive as the plain type)
+        again = specs.build(codec.loads(codec.dumps(sp)))
         if canon.canon(again) == canon.canon(s) and repr(again) == repr(s):
             return sp
     except Exception:  # noqa
